@@ -23,6 +23,9 @@ func C16Req(t *rapid.T, label string, concurrent bool) *world.Req {
 	if Pct(t, label+"-noswr", 25) {
 		cc = "max-age=" + itoa(life)
 	}
+	if Pct(t, label+"-sie", 30) {
+		cc += ", stale-if-error=3600"
+	}
 	rp := world.Reply{Kind: "resp", Status: 200, Body: world.Body{Len: Pick(t, label+"-blen", 16, 64, 5000, 70000)},
 		Header: [][2]string{H("Date", "$T+0"), H("Cache-Control", cc), H("X-Gen", "g$S")}}
 	// validators: ETag, Last-Modified, both or none (each takes another path through the
@@ -38,7 +41,9 @@ func C16Req(t *rapid.T, label string, concurrent bool) *world.Req {
 		}
 	}
 	rq.Uncond = rp
-	switch Weighted(t, label+"-cond", 65, 25, 10) {
+	switch Weighted(t, label+"-cond", 55, 20, 10, 15) {
+	case 3:
+		rq.Cond = &world.Reply{Kind: "resp", Status: Pick(t, label+"-5xx", 500, 503), Body: world.Body{Len: 9}, Header: [][2]string{H("Date", "$T+0")}}
 	case 0:
 		c := &world.Reply{Kind: "resp", Status: 304, Header: [][2]string{H("Date", "$T+0"), H("Cache-Control", cc), H("X-Gen", "g$S"), H("X-Upd-1", "u$S"), H("X-Upd-2", "u$S"), H("X-Upd-3", "u$S")}}
 		rq.Cond = c
